@@ -424,7 +424,7 @@ func driveC26(toks []string) string {
 				sb.WriteString(" " + enc26Values(x.Values))
 			}
 		}) + " | " + wireTrip(p, &plugins.VerifExecutionVariableContext{}, dump)
-	case "repop", "json", "jsonty", "pred", "rawval":
+	case "repop", "json", "jsonty", "pred", "rawval", "tree":
 		return driveC26b(toks)
 	case "e2e":
 		return driveC26e2e(toks)
